@@ -2289,6 +2289,13 @@ func parseJSONLiteral(s string) (Node, error) {
 
 func parseQuotedIdentifier(s string) (string, error) {
 	v := s[1 : len(s)-1]
+	for i := 0; i < len(v); i++ {
+		if v[i] < 0x20 {
+			// control characters must be written as escapes
+			return "", &invalidQuotedStringError{s}
+		}
+	}
+
 	i := strings.IndexByte(v, '\\')
 	if i == -1 || i+1 == len(v) {
 		return v, nil
